@@ -72,10 +72,10 @@ def run(name, seed):
         out["transform_x2"] = exc(e)
     if mask is None:
         X2s = relabel(name, c.X2, lambda t: t if t in vocab else None)
-        out["variant"] = "unseen deleted"
+        out["variant"] = "tokens outside the vocabulary deleted"
     else:
         X2s = relabel(name, c.X2, lambda t: t if t in vocab else mask)
-        out["variant"] = "unseen replaced by the mask string"
+        out["variant"] = "tokens outside the vocabulary replaced by the mask string"
     out["n_unseen_tokens"] = sum(1 for t in json.dumps(c.X2).split('"') if t == UNSEEN)
     # a multiset emptied by the deletion is not an input the vectorizer is documented to accept: compare only otherwise
     if name == "MultiSetCooccurrenceVectorizer" and any(len(ms) == 0 for d in X2s for ms in d):
